@@ -599,3 +599,115 @@ treat_link_atoms = FunctionContract(
             ("intermediate.update(attributes)", "pass")],
 )
 CONTRACTS.append(treat_link_atoms)
+
+
+# ------------------------------------------------------------------ SectionLineParser.parse_header: where a new header lands
+SecName = TKey('SecName')
+FP = 'vermouth/parser_utils.py'
+
+
+def setup_ph(cx):
+    from pyvc.builtins import list_append
+    old = cx.val('OLD', TSeq(SecName))                      # self.section before the header
+    new = cx.val('NEW', SecName)                            # the name in the header (stripped of brackets, case-folded)
+    cx.spec_env.update(OLD=old, NEW=new)
+    known_at = cx.uf('known_at', [TInt], TBool)             # OLD[:k] + [NEW] is a section the parser has a method for
+    FIN = cx.heap('FINALIZED', cx.box('FINALIZED', TSeq(TTuple(TSeq(SecName), TSeq(SecName)))))   # calls of finalize_section
+    st = TSeq(SecName)
+
+    def contains(e, t):
+        # tuple(section) in METH_DICT: the contract answers for stacks of the shape OLD[:k] + [NEW] only, and obliges the shape
+        te = to_z3(t, st)
+        j = z3.FreshInt('sj')
+        n = st.len(te)
+        e.oblige(z3.And(n >= 1, n - 1 <= st.len(old.e), st.at(te, n - 1) == new.e,
+                        z3.ForAll([j], z3.Implies(z3.And(0 <= j, j < n - 1), st.at(te, j) == st.at(old.e, j)))), 'stack-shape-at-lookup')
+        return wrap(TBool, known_at(n - 1))
+    cx.spec_env['tuple'] = Builtin(lambda e, x: x, 'tuple')
+    self = Obj('Parser', section=Box(st, old.e), METH_DICT=Obj('METH_DICT', __contains__=Builtin(contains, 'in METH_DICT')),
+               finalize_section=Builtin(lambda e, prev, ended: list_append(e, FIN, (prev, ended)), 'self.finalize_section'))
+    line = Obj('line', strip=Builtin(lambda e, chars: Obj('stripped', casefold=Builtin(lambda e2: new, 'casefold'))
+                                     if chars == '[ ]' else (_ for _ in ()).throw(EngineError('strip(%r)' % (chars,))), 'line.strip'))
+    return dict(self=self, line=line, lineno=0)
+
+
+SPEC_PH = {
+    # how much of the old stack survives: the longest prefix under which the new name is a known section (nothing if there is none)
+    'keeps': "lambda k: 0 <= k and k <= len(OLD) and (k == 0 or known_at(k)) and forall(lambda m: implies(k < m and m <= len(OLD), not known_at(m)))",
+}
+parse_header = FunctionContract(
+    FP, 'SectionLineParser.parse_header', 'C13', setup=setup_ph, spec_defs=SPEC_PH, spec_env=dict(SecName=SecName),
+    locals=dict(section=TSeq(SecName), ended=TSeq(SecName), prev_section=TSeq(SecName)),
+    requires=["len(old(FINALIZED)) == 0"],
+    ensures=[
+        # the new section stack is the longest prefix of the old one under which the header's name is a known section, followed by
+        # that name; the sections that are left (innermost first) are reported to finalize_section together with the old stack,
+        # once, and only when there was an old stack
+        "len(self.section) >= 1 and keeps(len(self.section) - 1) and self.section[len(self.section) - 1] == NEW",
+        "forall(lambda j: implies(0 <= j and j < len(self.section) - 1, self.section[j] == OLD[j]))",
+        "len(FINALIZED) == (1 if len(OLD) > 0 else 0)",
+        "implies(len(OLD) > 0, len(FINALIZED[0][0]) == len(OLD) and forall(lambda j: implies(0 <= j and j < len(OLD), FINALIZED[0][0][j] == OLD[j])) and "
+        "   len(FINALIZED[0][1]) == len(OLD) - (len(self.section) - 1) and "
+        "   forall(lambda q: implies(0 <= q and q < len(FINALIZED[0][1]), FINALIZED[0][1][q] == OLD[len(OLD) - 1 - q])))",
+    ],
+    modifies=['self.section', 'FINALIZED'],
+    loops={'L1': LoopSpec(inv=[
+        "len(section) >= 1 and len(section) - 1 <= len(OLD) and section[len(section) - 1] == NEW",
+        "forall(lambda j: implies(0 <= j and j < len(section) - 1, section[j] == OLD[j]))",
+        "forall(lambda m: implies(len(section) - 1 < m and m <= len(OLD), not known_at(m)))",
+        "len(ended) == len(OLD) - (len(section) - 1) and forall(lambda q: implies(0 <= q and q < len(ended), ended[q] == OLD[len(OLD) - 1 - q]))",
+        "len(FINALIZED) == 0"],
+        modifies=['section', 'ended'], decreases="len(section)")},
+    canary=[("ended.append(section.pop(-2))", "ended.append(section.pop(0))"),
+            ("while tuple(section) not in self.METH_DICT and len(section) > 1:", "while tuple(section) not in self.METH_DICT and len(section) > 2:"),
+            ("if prev_section:", "if ended:")],
+)
+CONTRACTS.append(parse_header)
+
+
+# ------------------------------------------------------------------ SectionLineParser.finalize / dispatch
+def setup_fin2(cx):
+    from pyvc.builtins import list_append
+    old = cx.val('OLD', TSeq(SecName))
+    cx.spec_env['OLD'] = old
+    FIN = cx.heap('FINALIZED', cx.box('FINALIZED', TSeq(TTuple(TSeq(SecName), TSeq(SecName)))))
+    res = cx.val('fin_result', TInt)
+    cx.spec_env['FIN_RESULT'] = res
+
+    def fin(e, prev, ended):
+        list_append(e, FIN, (prev, ended))
+        return res
+    self = Obj('Parser', section=Box(TSeq(SecName), old.e), macros=Obj('macros'), finalize_section=Builtin(fin, 'self.finalize_section'))
+    return dict(self=self, lineno=0)
+
+
+finalize_parser = FunctionContract(
+    FP, 'SectionLineParser.finalize', 'C13', setup=setup_fin2, spec_env=dict(SecName=SecName),
+    requires=["len(old(FINALIZED)) == 0"],
+    ensures=[
+        # at the end of the file every section that is still open is reported as ended, exactly once, and the parser is reset
+        "len(FINALIZED) == 1 and len(FINALIZED[0][0]) == len(OLD) and len(FINALIZED[0][1]) == len(OLD)",
+        "forall(lambda j: implies(0 <= j and j < len(OLD), FINALIZED[0][0][j] == OLD[j] and FINALIZED[0][1][j] == OLD[j]))",
+        "self.section is None and result == FIN_RESULT",
+    ],
+    modifies=['FINALIZED', 'self.section', 'self.macros'],
+    canary=[("result = self.finalize_section(prev_section, prev_section)", "result = self.finalize_section(self.section, self.section)")],
+)
+CONTRACTS.append(finalize_parser)
+
+
+def setup_dispatch(cx):
+    is_header = cx.val('is_header', TBool)
+    cx.spec_env['IS_HEADER'] = is_header
+    ph, ps = Obj('parse_header'), Obj('parse_section')
+    cx.spec_env.update(PARSE_HEADER=ph, PARSE_SECTION=ps)
+    self = Obj('Parser', parse_header=ph, parse_section=ps, is_section_header=Builtin(lambda e, line: is_header, 'self.is_section_header'))
+    return dict(self=self, line=Obj('line'))
+
+
+dispatch_parser = FunctionContract(
+    FP, 'SectionLineParser.dispatch', 'C13', setup=setup_dispatch,
+    ensures=["(result is PARSE_HEADER) == IS_HEADER", "(result is PARSE_SECTION) == (not IS_HEADER)"],
+    canary=[("return self.parse_header\n        else:\n            return self.parse_section", "return self.parse_section\n        else:\n            return self.parse_header")],
+)
+CONTRACTS.append(dispatch_parser)
